@@ -121,6 +121,17 @@ func (vc *VC) libCall(fr *frame, n *Node, x *ssa.Call, callee *ssa.Function, arg
 		vc.havocMods(n, ms)
 		vc.bindResult(n, x, sig, nil)
 		return true
+	case "fmt.Sprint":
+		// single-argument Sprint: a deterministic function of the (boxed) value; injectivity is a listed assumption
+		if tl := sLen(args[0].T); tl == "1" {
+			trust("fmt.Sprint(v) for a single argument: deterministic AND injective function of the value (assumption; not exact when names contain spaces)")
+			elem := args[0].Typ.Underlying().(*types.Slice).Elem()
+			iv := vc.load(st, e.elemPtr(args[0].T, "0"), elem)
+			e.addPre("fmt.sprint1", "(declare-fun fmt.sprint1 (Iface) Str)\n(declare-fun fmt.sprint1.inv (Str) Iface)\n(assert (forall ((x Iface)) (! (= (fmt.sprint1.inv (fmt.sprint1 x)) x) :pattern ((fmt.sprint1 x)))))")
+			vc.defVal(n, x, fmt.Sprintf("(fmt.sprint1 %s)", iv))
+			return true
+		}
+		return false
 	case "(*regexp.Regexp).MatchString":
 		trust("regexp match = an arbitrary but fixed predicate of (pattern object, string)")
 		vc.defVal(n, x, e.uf("re.match", []string{"Ptr", "Str"}, "Bool", args[0].T, args[1].T))
